@@ -12,6 +12,7 @@ import Mathlib.Tactic.Ring
 import PyodaModel.Codec
 import PyodaProofs.Basic
 import PyodaProofs.C14Lemmas
+import PyodaProofs.C14Transition
 
 namespace Pyoda.C14
 open Pyoda Pyoda.Codec
@@ -90,5 +91,59 @@ theorem pinned_milliseconds_counterexample :
 theorem read_write_offset (o : Offset) (h : Offset.MIN_S ≤ o.seconds ∧ o.seconds ≤ Offset.MAX_S) (rest : Bytes) :
     ∃ bs, writeOffset o = .ok bs ∧ readOffset (bs ++ rest) = .ok (o, rest) :=
   readOffset_writeOffset o h rest
+
+/-! ## strings -/
+
+/-- inline strings: any valid UTF-8 byte string shorter than 2^31 bytes -/
+theorem read_write_string_inline (s : Str) (hv : validUtf8 s = true) (hl : (s.length : Int) ≤ INT_MAX) (rest : Bytes) :
+    ∃ bs, writeStringInline s = .ok bs ∧ readString none (bs ++ rest) = .ok (s, rest) :=
+  readString_inline s hv hl rest
+
+/-- pooled strings: whatever the writer's pool was, the string is read back through any pool that extends the
+    writer's pool after the call (in particular the final pool of a writing session) -/
+theorem read_write_string_pooled (pool : List Str) (s : Str) (final : List Str) (bs : Bytes) (pool' : List Str)
+    (hw : writeStringPooled pool s = .ok (bs, pool')) (hp : pool' <+: final) (rest : Bytes) :
+    readString (some final) (bs ++ rest) = .ok (s, rest) :=
+  readString_pooled pool s final bs pool' hw hp rest
+
+/-! ## zone interval transitions -/
+
+/-- every transition in the writer's domain (sentinels or whole-tick instants, not earlier than `previous`)
+    is read back exactly, relative to the same `previous` -/
+theorem read_write_transition (prev : Option Instant) (v : Instant) (hd : TransDom prev v) (rest : Bytes) :
+    ∃ bs, writeTransition prev v = .ok bs ∧ readTransition prev (bs ++ rest) = .ok (v, rest) :=
+  readTransition_writeTransition prev v hd rest
+
+/-- canonicity: the form chosen is the documented one, stated in integer arithmetic on tick counts
+    (`expectedForm`: marker, else hours since previous in [2^7, 2^21), else minutes since 1800 in (2^21, 2^31),
+    else raw ticks), and the bytes are the varint of the payload (or marker 2 and eight big-endian bytes) -/
+theorem transition_form (prev : Option Instant) (v : Instant) (hd : TransDom prev v) :
+    transitionForm prev v = .ok (expectedForm prev v) ∧
+    writeTransition prev v = .ok (formBytes (expectedForm prev v)) :=
+  ⟨transitionForm_eq prev v hd, writeTransition_eq prev v hd⟩
+
+/-- `value < previous` is rejected -/
+theorem write_dom_raises_transition (p v : Instant) (h : Duration.ge v.dur p.dur = false) :
+    writeTransition (some p) v = .error .valueError := by
+  unfold writeTransition checkForward
+  simp only [h]
+  rfl
+
+/-- known finding (DESIGN §7 row 20): an instant that is not a whole number of ticks is accepted and written
+    as the instant truncated to its tick, so it does not read back as itself -/
+theorem transition_subtick_truncates (v : Instant) (hn : C03.Norm v.dur) (hv : C03.IValid v) (rest : Bytes) :
+    ∃ bs, writeTransition none v = .ok bs ∧ readTransition none (bs ++ rest) = .ok (truncTick v, rest) ∧
+      (v.dur.nod % 100 ≠ 0 → truncTick v ≠ v) := by
+  have ha := truncTick_aligned v hn hv
+  obtain ⟨bs, h1, h2⟩ := readTransition_writeTransition none (truncTick v) ⟨Or.inr (Or.inr ha), trivial⟩ rest
+  refine ⟨bs, by rw [writeTransition_none_trunc v hn hv]; exact h1, h2, ?_⟩
+  intro hne heq
+  have : (truncTick v).dur.nod = v.dur.nod := by rw [heq]
+  simp only [truncTick] at this
+  omega
+
+example : TransDom (some ⟨⟨0, 0⟩⟩) ⟨⟨5, 28800000000000⟩⟩ :=
+  ⟨Or.inr (Or.inr ⟨⟨by decide, by decide⟩, ⟨by decide, by decide⟩, by decide⟩),
+   Or.inr (Or.inr ⟨⟨by decide, by decide⟩, ⟨by decide, by decide⟩, by decide⟩), by decide⟩
 
 end Pyoda.C14
